@@ -64,6 +64,7 @@ type Node struct {
 	ConsIdx int // index into Keys.ValCons/ValOp; -1 for a pure witness
 	Cfg     NodeCfg
 	DB      *dbm.MemDB
+	sdb     *simDB // the view of DB handed to the application (snapshot iterators, see simdb.go)
 	App     *app.App
 	Up      bool
 	Mempool []MpTx
@@ -96,7 +97,7 @@ func (n *Node) newApp() *app.App {
 	if n.Cfg.MinGasPrice != "" {
 		opts = append(opts, baseapp.SetMinGasPrices(n.Cfg.MinGasPrice))
 	}
-	a := app.New(&simLogger{node: n}, n.DB, nil, true, simtestutil.NewAppOptionsWithFlagHome(n.home), opts...)
+	a := app.New(&simLogger{node: n}, n.simdb(), nil, true, simtestutil.NewAppOptionsWithFlagHome(n.home), opts...)
 	if n.ConsIdx >= 0 && !n.chain.Cfg.KeyringShipped {
 		app.VerifSetVoteExtKeyring(a, n.kr)
 	}
@@ -178,4 +179,13 @@ func truncKV(kv []any) []string {
 		out = append(out, truncate(fmt.Sprint(x), 300))
 	}
 	return out
+}
+
+// simdb returns the application's view of the node's durable image (one wrapper per underlying MemDB).
+func (n *Node) simdb() simDB {
+	if n.sdb == nil || n.sdb.MemDB != n.DB {
+		d := newSimDB(n.DB)
+		n.sdb = &d
+	}
+	return *n.sdb
 }
